@@ -17,6 +17,15 @@ def run(ck, ctx):
     S.t_noglobal(ck, ctx, "C15")
     ck.floor("T-NOGLOBAL.handle", 2)
     ck.floor("T-NOGLOBAL.class-attr", 2)
+    # the formatter / table classes used by run(): a mutable class-level value would be shared by the runs of all parser objects
+    S.t_class_defaults(ck, ctx)
+    out_init = m.func("simple_ddl_parser.output.core:Output.__init__")
+    for attr in ("final_result", "tables_dict"):
+        ok = any(isinstance(n, ast.Assign) and any(access_path(t) == f"self.{attr}" for t in n.targets if isinstance(t, ast.Attribute))
+                 and isinstance(n.value, (ast.List, ast.Dict)) and not (getattr(n.value, "elts", None) or getattr(n.value, "keys", None))
+                 for n in ast.walk(out_init.node))
+        ck.ob("T-FRESH.output", f"Output.__init__: self.{attr} starts empty", ok,
+              "the per-run accumulators of the formatter must be created per Output object", out_init.loc())
     # all lexer-flag stores go through self.lexer (not a module/class level lexer)
     eff = S.effects_of(ctx)
     n = 0
